@@ -101,4 +101,24 @@ PROPS = {
                             'production and seeded random process grids')],
         assumptions=['simulated MPI (vf/shim)'],
     ),
+    'C03': dict(
+        level='other',
+        contracts=[],
+        functions=[],
+        bounded=[dict(module='vf.rt.bounded_layout', prop='C03',
+                      bound='3-D groupings [[p0,p1],p0] / [[p0,p1],[p0]] and the 4-D grouping of the standard layouts with their 1-D '
+                            'versions, process grids (1,1)..(3,2) incl. extents of 1, extents 2..7 (even, uneven, n==p), every '
+                            'round trip a->b->a and seeded random sequences of 5 layouts, with/without buffer')],
+        assumptions=['simulated MPI (vf/shim): Allgather/Alltoall as in the MPI standard'],
+    ),
+    'C04': dict(
+        level='other',
+        contracts=[],
+        functions=[],
+        bounded=[dict(module='vf.rt.bounded_layout', prop='C04',
+                      bound='every sequence of length <= 5 (quick) / 6 (thorough) over {save, restore, free, write, 3 layouts} on a '
+                            'single-process grid with save memory (length <= 3 without), plus seeded random sequences of 6-24 '
+                            'operations on 2- and 4-process grids, real and complex')],
+        assumptions=['simulated MPI (vf/shim)'],
+    ),
 }
